@@ -107,9 +107,8 @@ where
     P: std::fmt::Debug,
 {
     debug_assert!(absolute_path.as_ref().is_absolute());
-    let mut url = config
-        .hyperlinks_file_link_format
-        .replace("{path}", &absolute_path.as_ref().to_string_lossy());
+    // The path is substituted last: it may itself contain the text of a placeholder.
+    let mut url = config.hyperlinks_file_link_format.clone();
     if let Some(host) = &config.hostname {
         url = url.replace("{host}", host)
     }
@@ -118,6 +117,7 @@ where
     } else {
         url = url.replace("{line}", "")
     };
+    url = url.replace("{path}", &absolute_path.as_ref().to_string_lossy());
     Cow::from(format_osc8_hyperlink(&url, text))
 }
 
